@@ -30,6 +30,10 @@ CHUNK = 160
 PASSPHRASE = b"c13-pass"
 
 
+class TimeBound(BaseException):
+    """One decode ran longer than Machine.TIME_BOUND (BaseException: no library handler may swallow it)."""
+
+
 class NotJudged(Exception):
     pass
 
@@ -259,6 +263,33 @@ def single_faults(b, is_der, is_text):
 # ---------------------------------------------------------------------------
 # targets
 
+def ref_tlv(tag, content):
+    n = len(content)
+    ln = bytes([n]) if n < 0x80 else bytes([0x80 | ((n.bit_length() + 7) // 8)]) + n.to_bytes((n.bit_length() + 7) // 8, "big")
+    return bytes([tag]) + ln + content
+
+
+def ref_int_body(v):
+    """Minimal two's complement (X.690 8.3)."""
+    body = v.to_bytes((v.bit_length() if v >= 0 else (-v - 1).bit_length()) // 8 + 1, "big", signed=True)
+    while len(body) > 1 and ((body[0] == 0x00 and body[1] < 0x80) or (body[0] == 0xFF and body[1] >= 0x80)):
+        body = body[1:]
+    return body
+
+
+def ref_oid_body(dotted):
+    arcs = [int(x) for x in dotted.split(".")]
+    out = bytearray()
+    for a in [arcs[0] * 40 + arcs[1]] + arcs[2:]:
+        grp = [a & 0x7F]
+        a >>= 7
+        while a:
+            grp.append((a & 0x7F) | 0x80)
+            a >>= 7
+        out += bytes(reversed(grp))
+    return bytes(out)
+
+
 class Target(object):
     name = ""
     is_der = False        # apply the DER strictness oracle (prefix / extension / length re-encoding)
@@ -278,6 +309,10 @@ class Target(object):
     def same(self, m, item, decoded):
         """True iff ``decoded`` is the value that was encoded (bijectivity)."""
         return True
+
+    def canonical(self, m, item):
+        """The one encoding the standard defines for this item, from an independent encoder (None: not modelled)."""
+        return None
 
 
 def _asn1():
@@ -304,6 +339,9 @@ class DerIntegerT(Target):
 
     def same(self, m, item, d):
         return d == item["v"]
+
+    def canonical(self, m, item):
+        return ref_tlv(0x02, ref_int_body(item["v"]))
 
 
 class DerMiscT(Target):
@@ -355,6 +393,30 @@ class DerMiscT(Target):
         o = self._obj(item)
         return d == getattr(o, "value", getattr(o, "payload", None))
 
+    def canonical(self, m, item):
+        k, a = item["k"], item["a"]
+        if k == "bool":
+            return ref_tlv(0x01, b"\xff" if a else b"\x00")
+        if k == "octet":
+            return ref_tlv(0x04, data("o", a))
+        if k == "bits":
+            return ref_tlv(0x03, b"\x00" + data("b", a))
+        if k == "null":
+            return b"\x05\x00"
+        if k == "oid":
+            return ref_tlv(0x06, ref_oid_body(a))
+        if k == "int_implicit":
+            return ref_tlv(0x80 | a, ref_int_body(12345678))
+        if k == "int_explicit":
+            return ref_tlv(0xA0 | a, ref_tlv(0x02, ref_int_body(-77)))
+        if k == "octet_implicit":
+            return ref_tlv(0x80 | a, data("o", 20))
+        if k == "bits_explicit":
+            return ref_tlv(0xA0 | a, ref_tlv(0x03, b"\x00" + data("b", 9)))
+        if k == "bool_explicit":
+            return ref_tlv(0xA7, ref_tlv(0x01, b"\xff"))
+        return None
+
 
 class DerSequenceT(Target):
     name = "DerSequence"
@@ -399,6 +461,16 @@ class DerSequenceT(Target):
         o = self._build(item)
         exp = sorted(list(o), key=repr) if item["setof"] else list(o)
         return d == exp
+
+    def canonical(self, m, item):
+        if not hasattr(self, "shapes"):
+            self.items(None)
+        if item["setof"]:
+            members = [ref_tlv(0x02, ref_int_body(v)) for v in (5, 1, 300, -2)] if item["shape"] == "ints" else \
+                [ref_tlv(0x04, data("q%d" % i, 3 + i)) for i in range(4)]
+            return ref_tlv(0x31, b"".join(sorted(members)))          # X.690 11.6: ascending order of the encodings
+        members = [ref_tlv(0x02, ref_int_body(v)) if isinstance(v, int) else v for v in self.shapes[item["shape"]]]
+        return ref_tlv(0x30, b"".join(members))
 
 
 class PemT(Target):
@@ -480,6 +552,38 @@ class Pkcs8T(Target):
 
     def passphrase_run(self, item):
         return bool(self.PROT[item["prot"]])
+
+    def extra_roundtrip(self, m, item, ctx):
+        """One parameter dictionary handed to two wraps in a row (the documented defaults apply to what it leaves out): the
+        caller's dictionary is as before, both containers open, and the second is what a fresh dictionary gives."""
+        if not (item["prot"] == 1 and item["n"] == 40):
+            return
+        from Crypto.IO import PKCS8
+        secret = data("p8key", 40)
+        for first, second in (("PBKDF2WithHMAC-SHA1AndAES128-CBC", "scryptAndAES128-CBC"), ("scryptAndAES128-CBC", "PBKDF2WithHMAC-SHA1AndAES128-CBC")):
+            params = {"salt_size": 8}
+            snap = dict(params)
+            outs = []
+            for prot in (first, second):
+                entropy.reset_stream("p8-reuse-" + prot)
+                try:
+                    outs.append(PKCS8.wrap(secret, "1.2.840.113549.1.1.1", passphrase=PASSPHRASE, protection=prot, prot_params=params))
+                except Exception as e:
+                    ctx.violate("roundtrip/PKCS8/params-reuse/exception:%s" % type(e).__name__,
+                                "PKCS8.wrap(protection=%s) raised %r when given the parameter dictionary an earlier wrap (%s) had been given" % (prot, e, first),
+                                observed=repr(e), expected="container")
+                finally:
+                    entropy.reset_stream(0)
+            if params != snap:
+                ctx.violate("roundtrip/PKCS8/params-mutated", "PKCS8.wrap changed the caller's prot_params dictionary", observed=repr(params), expected=repr(snap))
+            entropy.reset_stream("p8-reuse-" + second)
+            fresh = PKCS8.wrap(secret, "1.2.840.113549.1.1.1", passphrase=PASSPHRASE, protection=second, prot_params={"salt_size": 8})
+            entropy.reset_stream(0)
+            if outs[1] != fresh:
+                ctx.violate("roundtrip/PKCS8/params-reuse/different-container",
+                            "the container written with a parameter dictionary that an earlier wrap had seen differs from the one a fresh dictionary gives "
+                            "(%s after %s)" % (second, first), observed=outs[1][:60].hex(), expected=fresh[:60].hex())
+            ctx.probe("params_dictionary_reused")
 
 
 class KeyT(Target):
@@ -734,6 +838,13 @@ class Machine(object):
             elif curve in ("Ed25519",):
                 add("ECC", ki, pub.export_key(format="OpenSSH"), True, True)
             # (raw Ed/X public keys are not an import_key format: they have their own import functions)
+        # OpenSSL writes "EC PRIVATE KEY" files with an EC PARAMETERS section in front (the named curve's OID); the library
+        # reads them (the section is stripped) but does not write them
+        import base64 as _b64
+        for ki, oid_der in ((2, bytes.fromhex("06082a8648ce3d030107")), (3, bytes.fromhex("06052b81040022"))):
+            pem = self.keys["ECC"][ki].export_key(format="PEM", use_pkcs8=False)
+            sect = "-----BEGIN EC PARAMETERS-----\n%s\n-----END EC PARAMETERS-----\n" % _b64.b64encode(oid_der).decode()
+            add("ECC", ki, sect + pem, True, False)
         # OpenSSH private key files (openssh-key-v1, unencrypted), written by an independent encoder: the library
         # can import but not export this format
         import base64
@@ -956,9 +1067,18 @@ class Machine(object):
                 ctx.violate("roundtrip/%s/valid-rejected:%s#%s" % (t.name, type(e).__name__, self._label(t, item)),
                             "the decoder rejected a valid encoding (item %s): %r" % (self._label(t, item), e),
                             observed=repr(e), expected="value")
+            canon = t.canonical(self, item)
+            if canon is not None:
+                ctx.probe("canonical_encoding_compared")
+                if canon != valid:
+                    ctx.violate("roundtrip/%s/not-canonical#%s" % (t.name, self._label(t, item)),
+                                "the encoder's output for item %s is not the canonical encoding (independent encoder)" % self._label(t, item),
+                                observed=valid[:40].hex(), expected=canon[:40].hex())
             if d is not None and not t.same(self, item, d):
                 ctx.violate("roundtrip/%s/value#%s" % (t.name, self._label(t, item)), "decode(encode(v)) != v (item %s)" % self._label(t, item),
                             observed=repr(d)[:200], expected="the encoded value")
+            if hasattr(t, "extra_roundtrip"):
+                t.extra_roundtrip(self, item, ctx)
             ctx.probe("roundtrip_checked")
         for seq in case["faults"]:
             ctx.step()
@@ -981,6 +1101,10 @@ class Machine(object):
             except NotJudged:
                 ctx.not_judged += 1
                 continue
+            except TimeBound:
+                ctx.violate("time/%s/not-bounded-by-input-size" % t.name,
+                            "%s was still running after %.0f s on a damaged input of %d bytes (%s), without any password-based decryption" % (
+                                t.name, self.TIME_BOUND, len(b), label), observed="> %.0f s" % self.TIME_BOUND, expected="milliseconds")
             except Exception as e:
                 d, exc = None, e
             ctx.obs(label, type(exc).__name__)
@@ -1144,9 +1268,27 @@ class Machine(object):
             if len(hist) >= 2:
                 ctx.probe("reuse_after_earlier_decode")
 
+    TIME_BOUND = 10.0        # seconds for one decode of at most a few kilobytes without password-based decryption
+
     def _decode(self, t, item, b, pass_run):
         if not pass_run:
-            return t.decode(self, item, b)
+            # "in time bounded by the input size": every decoder here is (near) linear and takes milliseconds; a decode
+            # that is still running after TIME_BOUND seconds is not bounded by the size of a few-kilobyte input
+            import signal
+
+            def ontime(sig, frm):
+                raise TimeBound()
+            import time
+            t0 = time.time()
+            old = signal.signal(signal.SIGALRM, ontime)
+            left = signal.setitimer(signal.ITIMER_REAL, self.TIME_BOUND, 0.5)
+            try:
+                return t.decode(self, item, b)
+            finally:
+                signal.setitimer(signal.ITIMER_REAL, 0)
+                signal.signal(signal.SIGALRM, old)
+                if left[0] > 0:
+                    signal.setitimer(signal.ITIMER_REAL, max(1.0, left[0] - (time.time() - t0)))     # the engine's wall cap goes on
         # passphrase runs: a flipped bit in a stored cost parameter legitimately makes the KDF expensive; a watchdog
         # turns that into "not judged"
         import signal
